@@ -61,6 +61,7 @@ type DeclCfg struct {
 	NsDelims     []string
 	EnvDelims    []string
 	NoHelpNames  bool // avoid -h / --help even without HelpFlag
+	PDupField    int  // % of options in nested groups that reuse the Go field name of an option of an enclosing group
 }
 
 var shortPoolASCII = []rune("abcdefgijklmnopqrstuvwxyzABCDEFGHIJKLMNOPQRSTUVWXYZ0123456789")
@@ -283,6 +284,25 @@ func (n *namer) genOpt(g *Grp, c *Cmd) *Opt {
 	r, cfg, d := n.r, n.cfg, n.d
 	id := d.NewID()
 	o := &Opt{ID: id, Field: fmt.Sprintf("F%d", id), Grp: g, Cmd: c}
+	if g.Parent != nil && r.Chance(cfg.PDupField, 100) {
+		// same field name in an enclosing group's struct (legal Go; the INI key of both is that name)
+		var anc []*Opt
+		for pg := g.Parent; pg != nil; pg = pg.Parent {
+			anc = append(anc, pg.Opts...)
+		}
+		if len(anc) > 0 {
+			cand := anc[r.Intn(len(anc))].Field
+			free := true
+			for _, x := range g.Opts {
+				if x.Field == cand {
+					free = false
+				}
+			}
+			if free {
+				o.Field = cand
+			}
+		}
+	}
 	o.T = cfg.Types[r.Intn(len(cfg.Types))]
 	help := d.Options&flags.HelpFlag != 0 || cfg.NoHelpNames
 	wantShort, wantLong := true, true
